@@ -3,7 +3,7 @@
 #include "sigma.h"
 
 /* reference mapper arbiter (C05 rule) */
-enum { ARB_NONE = 0, ARB_TOP = 0xFF };
+enum { ARB_NONE = 0, ARB_TOP = 0xFF, ARB_OPENED = 0x80 };   /* ARB_OPENED|X: while no mapper was active, station X issued a command */
 typedef struct arb { uint8_t v; } arb;
 /* returns for a discovery-service Discover: 1 accept, 0 reject, -1 unconstrained; -2 for everything else */
 int  arb_step(arb *a, const pev *e);
